@@ -1028,12 +1028,14 @@ class ChannelFactory:
             # state transition to "closed" state
             if remoteerror:
                 channel._remoteerrors.append(remoteerror)
+            # set the state before waking up receivers: whoever gets
+            # EOFError from receive() must find the channel closed
+            if not sendonly:  # otherwise #--> "sendonly"
+                channel._closed = True  # --> "closed"
             queue = channel._items
             if queue is not None:
                 queue.put(ENDMARKER)
             self._no_longer_opened(id)
-            if not sendonly:  # otherwise #--> "sendonly"
-                channel._closed = True  # --> "closed"
             channel._receiveclosed.set()
 
     def _local_receive(self, id: int, data) -> None:
